@@ -153,6 +153,9 @@ fn main() {
             if let Some(p) = a.get("export") {
                 d_lzma2::replay_export(p, &prop, seed, a.num("limit", 60000) as usize, &mut rep);
             }
+            if a.get("framing-extremes").is_some() {
+                d_lzma2::framing_extremes(&prop, &mut rep);
+            }
             let w = a.num("walks", 0) as usize;
             if w > 0 {
                 d_lzma2::walks(&prop, seed, w, &mut rep);
